@@ -397,7 +397,8 @@ func checkC08(c *Ctx) (int, error) {
 			case 1:
 				// a BGZF block header (the blocked gzip of bioinformatics files): only an Extra field with
 				// the subfield 'B','C', length 2, and the block size; every block of such a file looks like this
-				e.Hdr = &GzHeader{Extra: []byte{'B', 'C', 2, 0, byte(27 + 10*mi), byte(mi)}, OS: 255}
+				// (BSIZE 27: the header bytes of the format's end-of-file marker block, here with a payload)
+				e.Hdr = &GzHeader{Extra: []byte{'B', 'C', 2, 0, 27, 0}, OS: 255}
 			}
 			// the optional header CRC (no Go writer emits it; readers must verify it) - cannot be added to
 			// a member that is written through Reset of a shared Writer, so those stay without
